@@ -126,7 +126,7 @@ func (c *Cluster) serve(sc *Conn) {
 	hello, err := wire.ReadHello(conn)
 	if err != nil {
 		c.mu.Lock()
-		if !sc.Pair.ClientClosed() && !c.stopped {
+		if !sc.Pair.ClientClosed() && !c.stopped && sc.closedBy == "" {
 			c.problemLocked("conn %d to %s: bad hello: %v", sc.ID, sc.Addr, err)
 		}
 		c.mu.Unlock()
@@ -394,10 +394,9 @@ func (c *Cluster) execMaster(sc *Conn, req *wire.Request, ok proto.Message) *Rep
 		return &Reply{Exc: &Exc{Class: PleaseHold, Stack: "not the active master"}}
 	}
 	mk := "master"
-	c.attempts[mk]++
-	e.Marker, e.Attempt = mk, c.attempts[mk]
-	if outs := c.Script[mk]; e.Attempt <= len(outs) {
-		o := outs[e.Attempt-1]
+	e.Marker = mk
+	c.arriveLocked(mk, &e)
+	if o := c.scriptedLocked(mk); o != nil {
 		if o.Kind == "exc" {
 			e.Result = o.Class
 			c.logExecLocked(e)
@@ -445,16 +444,27 @@ func (c *Cluster) checkRegionLocked(addr string, name, row []byte, e *Exec) (*Re
 	return r, nil
 }
 
-// scriptedLocked consumes the scripted outcome for this attempt of marker.
-func (c *Cluster) scriptedLocked(marker string, e *Exec) *Outcome {
+// arriveLocked counts one arrival of a marked call.
+func (c *Cluster) arriveLocked(marker string, e *Exec) {
 	if marker == "" {
-		return nil
+		return
 	}
 	c.attempts[marker]++
 	e.Attempt = c.attempts[marker]
+}
+
+// scriptedLocked consumes the next scripted outcome of marker. It is only
+// called for requests that reached a region the server hosts, so that a
+// script describes what the owning region answers, attempt by attempt.
+func (c *Cluster) scriptedLocked(marker string) *Outcome {
+	if marker == "" {
+		return nil
+	}
 	outs := c.Script[marker]
-	if e.Attempt <= len(outs) {
-		o := outs[e.Attempt-1]
+	i := c.scriptAt[marker]
+	if i < len(outs) {
+		c.scriptAt[marker] = i + 1
+		o := outs[i]
 		return &o
 	}
 	return nil
@@ -486,7 +496,7 @@ func (c *Cluster) execSingle(sc *Conn, req *wire.Request, regName []byte, get *p
 	if sc.Service != "ClientService" {
 		c.problemLocked("%s on a %q connection", e.Method, sc.Service)
 	}
-	out := c.scriptedLocked(marker, &e)
+	c.arriveLocked(marker, &e)
 	if r := c.regionByNameLocked(regName); r != nil && r.Hold {
 		c.logExecLocked(Exec{Addr: e.Addr, Conn: e.Conn, CallID: e.CallID, Method: e.Method, Region: e.Region, Row: e.Row, Marker: marker, Attempt: e.Attempt, Result: "held", Probe: e.Probe})
 		if !c.waitRegionHoldLocked(r, sc) {
@@ -499,6 +509,7 @@ func (c *Cluster) execSingle(sc *Conn, req *wire.Request, regName []byte, get *p
 		return &Reply{Exc: exc}
 	}
 	_ = reg
+	out := c.scriptedLocked(marker)
 	if out != nil {
 		switch out.Kind {
 		case "exc":
@@ -586,8 +597,10 @@ func (c *Cluster) execMulti(sc *Conn, req *wire.Request, m *pb.MultiRequest, cel
 		a   *pb.Action
 	}
 	type regionActs struct {
-		name []byte
-		acts []*pending
+		name      []byte
+		acts      []*pending
+		exc       *Exc
+		excResult string
 	}
 	var all []regionActs
 	off := 0
@@ -622,19 +635,32 @@ func (c *Cluster) execMulti(sc *Conn, req *wire.Request, m *pb.MultiRequest, cel
 				c.problemLocked("multi action %d has neither get nor mutation", a.GetIndex())
 			}
 			e.Marker = marker
-			out := c.scriptedLocked(marker, &e)
-			if out != nil && out.Kind == "drop" {
-				dropAll = true
-			}
-			if out != nil && out.Kind == "reset" {
-				resetAll = true
-			}
-			rs.acts = append(rs.acts, &pending{e, out, a})
+			c.arriveLocked(marker, &e)
+			rs.acts = append(rs.acts, &pending{e, nil, a})
 		}
 		all = append(all, rs)
 	}
 	if off != len(cellblock) {
 		c.problemLocked("conn %d call %d: multi request cellblock has %d bytes, associated cell counts cover %d", sc.ID, callID, len(cellblock), off)
+	}
+	// region checks, then the scripted outcomes of the actions that reached their region
+	for i := range all {
+		rs := &all[i]
+		e0 := Exec{}
+		_, rs.exc = c.checkRegionLocked(sc.Addr, rs.name, nil, &e0)
+		rs.excResult = e0.Result
+		if rs.exc != nil {
+			continue
+		}
+		for _, p := range rs.acts {
+			p.out = c.scriptedLocked(p.e.Marker)
+			if p.out != nil && p.out.Kind == "drop" {
+				dropAll = true
+			}
+			if p.out != nil && p.out.Kind == "reset" {
+				resetAll = true
+			}
+		}
 	}
 	if dropAll || resetAll {
 		// the whole request is lost before anything is executed
@@ -655,11 +681,9 @@ func (c *Cluster) execMulti(sc *Conn, req *wire.Request, m *pb.MultiRequest, cel
 	holdKey := ""
 	for _, rs := range all {
 		rar := &pb.RegionActionResult{}
-		e0 := Exec{}
-		_, exc := c.checkRegionLocked(sc.Addr, rs.name, nil, &e0)
-		if exc != nil {
+		if exc := rs.exc; exc != nil {
 			for _, p := range rs.acts {
-				p.e.Result = e0.Result
+				p.e.Result = rs.excResult
 				c.logExecLocked(p.e)
 			}
 			rar.Exception = &pb.NameBytesPair{Name: proto.String(exc.Class), Value: []byte(exc.Stack)}
